@@ -21,6 +21,7 @@ func init() {
 				"R1.atomic":      "an operation that takes the state mutex has one critical section: it does not also call a helper that takes and releases the mutex on its own (check-then-act)",
 				"R3.nowait":      "no Cond.Wait / channel receive while the mutex is held",
 				"R4.lockset":     "yubiagent client: the connection and the agent built on it are used only under connLock (Close excepted)",
+				"R5.ownreply":    "the shim server keeps no byte buffer that operations write: every caller gets a reply of its own",
 				"R4.noreacquire": "as R3 for connLock",
 				"R4.nowait":      "as R3 for connLock",
 			},
@@ -86,6 +87,33 @@ func runC11(c *Ctx) {
 		if strings.HasPrefix(c.Obs[i].Rule, "R1.no") {
 			c.Obs[i].Rule = "R3" + c.Obs[i].Rule[2:]
 			c.Obs[i].Key = strings.Replace(c.Obs[i].Key, "C11.R1.no", "C11.R3.no", 1)
+		}
+	}
+
+	// R5: each caller gets its own reply: the server keeps no byte buffer that operations write (a reply read into a
+	// buffer kept in the server is overwritten by the next operation while an earlier caller still holds it)
+	{
+		st := m.Server.Underlying().(*types.Struct)
+		nBuf := 0
+		for i := 0; i < st.NumFields(); i++ {
+			fld := st.Field(i)
+			if !isByteSeq(fld.Type()) {
+				continue
+			}
+			for _, a := range w.FieldAccesses(m.Server, fld.Name()) {
+				if a.Kind != "write" && a.Kind != "addr" && a.Kind != "addrcall" {
+					continue
+				}
+				if a.Fn.Signature.Recv() == nil && a.Fn.Parent() == nil {
+					continue // construction
+				}
+				nBuf++
+				c.Bad("R5.ownreply", shortFn(a.Fn)+"|no reply buffer kept in the server ("+fld.Name()+")", w.Pos(a.Instr.Pos()),
+					"the operation stores a byte buffer into the server ("+fld.Name()+"): a reply handed to one caller is overwritten by the next operation that reuses the buffer")
+			}
+		}
+		if nBuf == 0 {
+			c.Ok("R5.ownreply", "Server|no reply buffer kept in the server", w.Pos(m.Server.Obj().Pos()), "no operation stores a byte slice into a field of the server")
 		}
 	}
 
